@@ -8,7 +8,7 @@
                      DFS of Netlist.check_comb_cycles (checked / busy sets, extra_nets merging) on nat fuel.
    The SPEC predicates (addr / may_drive / conflict, edge / cyclic) are at the end of each part.
    No proofs here. *)
-From Coq Require Import ZArith List Bool Arith.
+From Coq Require Import ZArith List Bool Arith Cantor.
 Import ListNotations.
 
 (* ================================================================================================ *)
@@ -410,6 +410,7 @@ Definition has_source (d : design) (x : bit) (src : source) : Prop :=
                                      /\ may_drive t (fst x) (snd x)
   | SrcOut k => nth_error (out_bits (d_top d)) k = Some x
   | SrcPort k => exists w, nth_error (d_ports d) k = Some (fst x, w, PIn) /\ snd x < w
+                 (* (a dir=None port resolved to Input is counted by the computable n_sources only) *)
   end.
 (* some bit has two different sources *)
 Definition conflict (d : design) : Prop :=
@@ -441,11 +442,25 @@ Definition logic_sources (d : design) (x : bit) : list (nat * nat) :=
   flat_map (fun ms => map (fun dm => (fst ms, dm))
                           (dedup (map fst (filter (fun st => may_driveb (snd st) (fst x) (snd x)) (snd ms)))))
            (fst (mods (d_top d) 0)).
+(* a port is a source of its signal's bits when it is an Input: declared so, or dir=None on a signal that nothing
+   drives (no logic, no output) and that no earlier port already claimed *)
+Definition n_inner (d : design) (x : bit) : nat :=
+  length (logic_sources d x) + length (filter (bit_eqb x) (out_bits (d_top d))).
+Fixpoint port_sources (d : design) (x : bit) (ports : list (nat * nat * pdir)) (seen : list nat) : nat :=
+  match ports with
+  | [] => 0
+  | (s, w, dir) :: r =>
+      (if Nat.eqb s (fst x) && (snd x <? w) &&
+          match dir with
+          | PIn => true
+          | POut => false
+          | PNone => negb (existsb (Nat.eqb s) seen)
+                     && negb (existsb (fun b => 0 <? n_inner d (s, b)) (seq 0 w))
+          end
+       then 1 else 0) + port_sources d x r (s :: seen)
+  end.
 Definition n_sources (d : design) (x : bit) : nat :=
-  length (logic_sources d x)
-  + length (filter (bit_eqb x) (out_bits (d_top d)))
-  + length (filter (fun p => match p with (s, w, PIn) => Nat.eqb s (fst x) && (snd x <? w) | _ => false end)
-                   (d_ports d)).
+  n_inner d x + port_sources d x (d_ports d) [].
 Fixpoint tgt_sigs (t : tgt) : list (nat * nat) :=
   match t with
   | TSig s w => [(s, w)]
@@ -687,4 +702,195 @@ Definition cell_bit (v : net -> bool) (c : cell) (bit : nat) : bool :=
                               then vl v value (bit - start) else acc) assigns (vl v default bit)
   | CIOB false _ _ o oe => vl v o bit && v oe          (* what the pad sees when driven; else high-Z *)
   | _ => false
+  end.
+
+(* ================================================================================================ *)
+(* Part III — the design-level dependency relation (SPEC side of the cycle clause)                  *)
+(* ================================================================================================ *)
+(* "signal bit x combinationally depends on signal bit y" for designs written in a small expression /
+   statement language: slices, Cat and as_signed are wiring; ~ & | ^ and Mux data are bit-precise (operands
+   zero- / sign-extended to the result shape); arithmetic, shifts, comparisons, reductions, part-selects with
+   a dynamic offset, pattern matches, Mux / array / If / Switch selectors are word-level: every result bit
+   depends on every operand bit.  Assignment targets may themselves read signals (part-select offset, array
+   index); a flip-flop output depends on its clock and asynchronous reset; an asynchronous read port on its
+   address; a bidirectional I/O buffer's input on its output and enable.  The harness runs this next to the
+   real emitter + checker: the design-level oracle is Gallina, not Python. *)
+Inductive xw1 := X_neg | X_red.                       (* -x : width+1 signed; bool / any / all / xor : 1 bit *)
+Inductive xw2 := X_add | X_sub | X_mul | X_div | X_mod | X_shl | X_shr | X_cmp.
+Inductive cexpr :=
+| XSl (s lo hi : nat)                 (* s[lo:hi]; a single bit is s[i:i+1] *)
+| XConst (w : nat)                    (* Const / AnyConst / Initial(): no dependency *)
+| XCat (ps : list cexpr)
+| XESl (e : cexpr) (lo hi : nat)
+| XSgn (e : cexpr)
+| XNot (e : cexpr)
+| XBw (a b : cexpr)                   (* & | ^ *)
+| XMux (c a b : cexpr)
+| XW1 (o : xw1) (e : cexpr)
+| XW2 (o : xw2) (a b : cexpr)
+| XPart (e off : cexpr) (w : nat)     (* bit_select / word_select with a dynamic offset *)
+| XMatches (e : cexpr)
+| XArr (idx : cexpr) (es : list cexpr).
+
+Definition xunify (a b : nat * bool) : nat * bool :=
+  let '(wa, sa) := a in let '(wb, sb) := b in
+  if Bool.eqb sa sb then (Nat.max wa wb, sa)
+  else if sa then (Nat.max wa (wb + 1), true) else (Nat.max (wa + 1) wb, true).
+
+(* Value.shape() *)
+Fixpoint xshape (e : cexpr) : nat * bool :=
+  match e with
+  | XSl _ lo hi => (hi - lo, false)
+  | XConst w => (w, false)
+  | XCat ps => (fold_right (fun p acc => fst (xshape p) + acc) 0 ps, false)
+  | XESl _ lo hi => (hi - lo, false)
+  | XSgn e => (fst (xshape e), true)
+  | XNot e => xshape e
+  | XBw a b => xunify (xshape a) (xshape b)
+  | XMux _ a b => xunify (xshape a) (xshape b)
+  | XW1 X_neg e => (fst (xshape e) + 1, true)
+  | XW1 X_red _ => (1, false)
+  | XW2 o a b =>
+      let '(wa, sa) := xshape a in let '(wb, sb) := xshape b in
+      match o with
+      | X_add => let '(w, sg) := xunify (wa, sa) (wb, sb) in (w + 1, sg)
+      | X_sub => (fst (xunify (wa, sa) (wb, sb)) + 1, true)
+      | X_mul => (wa + wb, sa || sb)
+      | X_div => (wa + (if sb then 1 else 0), sa || sb)
+      | X_mod => (wb, sb)
+      | X_shl => (wa + 2 ^ wb - 1, sa)
+      | X_shr => (wa, sa)
+      | X_cmp => (1, false)
+      end
+  | XPart _ _ w => (w, false)
+  | XMatches _ => (1, false)
+  | XArr _ es => match map xshape es with [] => (0, false) | s :: r => fold_left xunify r s end
+  end.
+
+(* extension of a value's per-bit dependencies to n bits: zero bits depend on nothing, sign bits on the MSB *)
+Definition xext (d : list (list bit)) (signed : bool) (n : nat) : list (list bit) :=
+  firstn n d ++ repeat (if signed then last d [] else []) (n - length d).
+Definition xall (d : list (list bit)) : list bit := concat d.
+Fixpoint zip_app (a b : list (list bit)) : list (list bit) :=
+  match a, b with
+  | x :: a', y :: b' => (x ++ y) :: zip_app a' b'
+  | _, _ => []
+  end.
+
+(* per result bit: the signal bits it depends on *)
+Fixpoint xdeps (e : cexpr) : list (list bit) :=
+  let w := fst (xshape e) in
+  match e with
+  | XSl s lo hi => map (fun i => [(s, i)]) (seq lo (hi - lo))
+  | XConst w => repeat [] w
+  | XCat ps => flat_map xdeps ps
+  | XESl e lo hi => firstn (hi - lo) (skipn lo (xdeps e))
+  | XSgn e => xdeps e
+  | XNot e => xdeps e
+  | XBw a b => zip_app (xext (xdeps a) (snd (xshape a)) w) (xext (xdeps b) (snd (xshape b)) w)
+  | XMux c a b =>
+      map (fun d => xall (xdeps c) ++ d)
+          (zip_app (xext (xdeps a) (snd (xshape a)) w) (xext (xdeps b) (snd (xshape b)) w))
+  | XW1 _ e => repeat (xall (xdeps e)) w
+  | XMatches e => repeat (xall (xdeps e)) w
+  | XW2 _ a b => repeat (xall (xdeps a) ++ xall (xdeps b)) w
+  | XPart e off _ => repeat (xall (xdeps e) ++ xall (xdeps off)) w
+  | XArr idx es =>
+      map (fun i => xall (xdeps idx) ++ flat_map (fun p => nth i (xext (xdeps p) (snd (xshape p)) w) []) es)
+          (seq 0 w)
+  end.
+
+(* assignment targets of the statement language *)
+Inductive ctgt :=
+| CTSl (s lo hi : nat)                                        (* s[lo:hi] *)
+| CTPart (s lo hi : nat) (off : cexpr) (w stride : nat)       (* s[lo:hi].bit_select / word_select (off, w) *)
+| CTArr (idx : cexpr) (elems : list (nat * nat * nat)).       (* Array([s[lo:hi], ...])[idx] *)
+
+Definition ctlen (t : ctgt) : nat :=
+  match t with
+  | CTSl _ lo hi => hi - lo
+  | CTPart _ _ _ _ w _ => w
+  | CTArr _ elems => fold_right (fun e acc => Nat.max (snd e - snd (fst e)) acc) 0 elems
+  end.
+
+Inductive cstmt :=
+| CSAssign (ff : option (list bit))      (* None: comb; Some l: flip-flop whose clock / async reset are the bits l *)
+           (t : ctgt) (e : cexpr) (cond : option cexpr)
+| CSMem (async : bool) (addr : cexpr) (s lo hi : nat)    (* read-port data on s[lo:hi] *)
+| CSIob (o oe : cexpr) (s lo hi : nat)                   (* bidirectional buffer, i on s[lo:hi] *)
+| CSNone.                                                (* instance outputs, prints, asserts, write ports *)
+
+Definition nthd (d : list (list bit)) (k : nat) : list bit := nth k d [].
+
+(* (target bit, the bits it depends on) *)
+Definition stmt_deps (st : cstmt) : list (bit * list bit) :=
+  match st with
+  | CSAssign ff t e cond =>
+      let rhs := xext (xdeps e) (snd (xshape e)) (ctlen t) in
+      let cd := match cond with Some c => xall (xdeps c) | None => [] end in
+      let dep := fun (k : nat) (sel : list bit) =>
+                   match ff with Some l => l | None => nthd rhs k ++ sel ++ cd end in
+      match t with
+      | CTSl s lo hi => map (fun k => ((s, lo + k), dep k [])) (seq 0 (hi - lo))
+      | CTPart s lo hi off w stride =>
+          let width := hi - lo in
+          let ncases := Nat.min ((width + stride - 1) / stride) (2 ^ fst (xshape off)) in
+          flat_map (fun o => flat_map (fun k => if o * stride + k <? width
+                                                then [((s, lo + o * stride + k), dep k (xall (xdeps off)))]
+                                                else []) (seq 0 w)) (seq 0 ncases)
+      | CTArr idx elems =>
+          flat_map (fun el => let '(s, lo, hi) := el in
+                              map (fun k => ((s, lo + k), dep k (xall (xdeps idx)))) (seq 0 (hi - lo))) elems
+      end
+  | CSMem async addr s lo hi =>
+      map (fun k => ((s, lo + k), if async then xall (xdeps addr) else [])) (seq 0 (hi - lo))
+  | CSIob o oe s lo hi =>
+      map (fun k => ((s, lo + k), nthd (xdeps o) k ++ xall (xdeps oe))) (seq 0 (hi - lo))
+  | CSNone => []
+  end.
+
+Definition design_deps (sts : list cstmt) : list (bit * list bit) := flat_map stmt_deps sts.
+
+(* SPEC: x depends on y in one step; a design is cyclic when some bit reaches itself *)
+Definition dep1 (sts : list cstmt) (x y : bit) : Prop := exists l, In (x, l) (design_deps sts) /\ In y l.
+Inductive dreach (sts : list cstmt) : bit -> bit -> Prop :=
+| dreach_one x y : dep1 sts x y -> dreach sts x y
+| dreach_step x y z : dep1 sts x y -> dreach sts y z -> dreach sts x z.
+Definition design_cyclic (sts : list cstmt) : Prop := exists x, dreach sts x x.
+
+(* decision: one single-output word-level cell per driven bit, one late net per bit (Cantor code), then the
+   verified DFS *)
+Fixpoint bdedup (l : list bit) : list bit :=
+  match l with
+  | [] => []
+  | x :: r => if bmem x r then bdedup r else x :: bdedup r
+  end.
+Definition bcode (x : bit) : nat := S (Cantor.to_nat x).
+Definition benc (x : bit) : net := NL (bcode x).
+Definition deps_of (deps : list (bit * list bit)) (x : bit) : list bit :=
+  flat_map (fun p => if bit_eqb (fst p) x then snd p else []) deps.
+Fixpoint conn_from (D : list bit) (j : nat) : list (nat * net) :=
+  match D with
+  | [] => []
+  | x :: r => (bcode x, NC (S j) 0) :: conn_from r (S j)
+  end.
+Definition dep_graph_netlist (deps : list (bit * list bit)) : netlist :=
+  let D := bdedup (map fst deps) in
+  Netlist (CTop [] :: map (fun x => CMatch 1 (NC 0 1) (map benc (deps_of deps x))) D)
+          (conn_from D 0)
+          [map benc (map fst deps ++ flat_map snd deps)].
+Definition design_cyclicb (sts : list cstmt) : bool :=
+  match check_cycles (dep_graph_netlist (design_deps sts)) with VCycle _ => true | _ => false end.
+
+(* ---------- targets the public API builds, including arrays of elements of different widths ---------- *)
+(* ArrayProxy pushes slices and part-selects into its elements, so a SwitchValue with narrower elements is only
+   ever assigned from position 0 (through Cat parts and casts); below a Slice / Part the strict wf_tgt applies *)
+Fixpoint wf_tgt_top (t : tgt) : bool :=
+  match t with
+  | TSig _ _ => true
+  | TCast a => wf_tgt_top a
+  | TSlice _ _ _ => wf_tgt t
+  | TPart _ _ _ _ => wf_tgt t
+  | TCat ps => forallb wf_tgt_top ps
+  | TSwitch w es => forallb (fun e => wf_tgt_top e && (tlen e <=? w)) es
   end.
